@@ -262,7 +262,7 @@ theorem dict_placeholder_unstable :
     .dictionary "$.s.d" (.leaf "$.s.d.key" (.int .u32) none [0, 0]) (.bytes "$.s.d.value" .utf8 none [0, 1] [97]) ["a"],
     .str "a", ?_, by decide +kernel, ?_⟩
   · simp only [WFB]
-    refine ⟨VLen.none _, ⟨⟨rfl, rfl, by decide⟩, VLen.none _⟩, by decide, by decide, ?_⟩
+    refine ⟨VLen.none _, ⟨⟨rfl, rfl, by decide⟩, VLen.none _⟩, by decide, by decide, ?_, fun _ => by decide +kernel⟩
     intro k hk j hj
     have : dec (B.leaf "$.s.d.key" (.int .u32) none [0, 0]) = [.int 0, .int 0] := by decide
     rw [this] at hk
